@@ -31,6 +31,8 @@ pub enum Op {
     Driver(usize, usize, usize),
     /// the field presents these input bytes
     Field(Vec<u8>),
+    /// hand the runtime to a paused resource thread and queue restart requests (ends the slot)
+    Sched(Vec<(When, Mode)>),
 }
 
 impl Op {
@@ -49,6 +51,10 @@ impl Op {
             Op::EnvW(w) => format!("envw {}", u8::from(*w)),
             Op::Driver(i, q, m) => format!("driver {i} {q} {m}"),
             Op::Field(b) => format!("field {}", crate::util::hex(b)),
+            Op::Sched(script) => format!(
+                "sched {}",
+                script.iter().map(|(w, m)| format!("{}:{}", w.word(), m.word())).collect::<Vec<_>>().join(",")
+            ),
         }
     }
 }
@@ -80,10 +86,15 @@ pub struct Dump {
     /// flattened `path -> canonical value` (FB instances expanded to their members)
     pub vars: Vec<(String, String)>,
     vline: String,
+    /// `sched` operations: (request left pending, retain loads = restarts carried out)
+    pub sched: Option<(String, usize)>,
 }
 
 impl Dump {
     pub fn line(&self) -> String {
+        if let Some((pending, loads)) = &self.sched {
+            return format!("res={} pending={pending} loads={loads} V {}", self.res, self.vline);
+        }
         format!(
             "res={} t={} cc={} f={} lf={} fr={} ov={} I={} Q={} M={} LI={} LQ={} LM={} DI={} DQ={} dead={} acc={} S={} V {}",
             self.res,
@@ -294,6 +305,31 @@ impl RetainStore for ScriptedStore {
     }
 }
 
+/// The case's medium behind a gate: a `load` parks on a channel when `park` is set (so that the
+/// controller can act at a known point in the middle of a restart) and counts the loads.
+pub struct GateStore {
+    pub inner: Box<dyn RetainStore>,
+    pub loads: Arc<std::sync::atomic::AtomicUsize>,
+    pub park: Arc<std::sync::atomic::AtomicBool>,
+    pub entered: Mutex<std::sync::mpsc::Sender<()>>,
+    pub go: Mutex<std::sync::mpsc::Receiver<()>>,
+}
+
+impl RetainStore for GateStore {
+    fn load(&self) -> Result<RetainSnapshot, RuntimeError> {
+        use std::sync::atomic::Ordering;
+        self.loads.fetch_add(1, Ordering::SeqCst);
+        if self.park.swap(false, Ordering::SeqCst) {
+            let _ = self.entered.lock().unwrap().send(());
+            let _ = self.go.lock().unwrap().recv_timeout(std::time::Duration::from_secs(30));
+        }
+        self.inner.load()
+    }
+    fn store(&self, snapshot: &RetainSnapshot) -> Result<(), RuntimeError> {
+        self.inner.store(snapshot)
+    }
+}
+
 /// The storage medium of a case: the real `FileRetainStore` inside a directory that may not
 /// exist yet, or a scripted store.
 pub enum Medium {
@@ -381,6 +417,13 @@ impl<'a> Exec<'a> {
             };
             d.acc.push((a.name.clone(), v));
         }
+        let names: Vec<String> = rt.programs().keys().map(|n| n.to_string()).collect();
+        self.fill_vars(st, &names, &mut d);
+        d
+    }
+
+    /// The `V` part of a dump: every global and every variable of every program's live instance.
+    fn fill_vars(&self, st: &VariableStorage, prog_names: &[String], d: &mut Dump) {
         let mut parts: Vec<String> = Vec::new();
         let mut pparts: Vec<String> = Vec::new();
         for g in &self.case.globals {
@@ -392,7 +435,7 @@ impl<'a> Exec<'a> {
                 None => parts.push(format!("{}=?", g.name)),
             }
         }
-        for name in rt.programs().keys() {
+        for name in prog_names {
             let mut s = format!("| {name} ");
             match st.get_global(name.as_str()) {
                 Some(Value::Instance(id)) => match st.get_instance(*id) {
@@ -411,8 +454,8 @@ impl<'a> Exec<'a> {
             pparts.push(s);
         }
         d.vline = format!("{} {}", parts.join(" "), pparts.join(" "));
-        d
     }
+
 
     fn set_store(&mut self, k: usize, autosave: bool) {
         let store: Box<dyn RetainStore> = match &self.medium {
@@ -423,8 +466,151 @@ impl<'a> Exec<'a> {
         self.slots[k].as_mut().unwrap().runtime_mut().set_retain_store(Some(store), interval);
     }
 
+    /// The tail of a history through the REAL resource thread (scheduler.rs): the runtime of slot
+    /// `k` is handed to `ResourceRunner::spawn` (paused, so that no cycle runs), restart requests
+    /// are written to its restart signal exactly as the control endpoint does (lock, store), at
+    /// scripted moments: before the thread starts, while it is idle, or while it is inside the
+    /// retain load of the previous request's restart (the store parks there on a channel).
+    fn run_sched(&mut self, k: usize, script: &[(When, Mode)]) -> Result<Dump, String> {
+        use std::sync::atomic::{AtomicBool, AtomicUsize, Ordering};
+        use std::sync::mpsc::channel;
+        use std::time::{Duration as StdDuration, Instant};
+        use trust_runtime::scheduler::{ResourceCommand, ResourceRunner, StartGate, StdClock};
+
+        let h = self.slots[k].take().ok_or("sched: no runtime")?;
+        self.fields[k] = None;
+        let prog_names: Vec<String> = h.runtime().programs().keys().map(|n| n.to_string()).collect();
+        let mut runtime = h.into_runtime();
+        let inner: Box<dyn RetainStore> = match &self.medium {
+            Medium::File { path, .. } => Box::new(FileRetainStore::new(path)),
+            Medium::Scripted(m) => Box::new(ScriptedStore(m.clone())),
+        };
+        let loads = Arc::new(AtomicUsize::new(0));
+        let park = Arc::new(AtomicBool::new(false));
+        let (entered_tx, entered_rx) = channel::<()>();
+        let (go_tx, go_rx) = channel::<()>();
+        runtime.set_retain_store(
+            Some(Box::new(GateStore {
+                inner,
+                loads: loads.clone(),
+                park: park.clone(),
+                entered: Mutex::new(entered_tx),
+                go: Mutex::new(go_rx),
+            })),
+            None,
+        );
+        let signal: Arc<Mutex<Option<RestartMode>>> = Arc::new(Mutex::new(None));
+        let gate = Arc::new(StartGate::new());
+        let runner = ResourceRunner::new(runtime, StdClock::new(), Duration::from_millis(1))
+            .with_restart_signal(signal.clone())
+            .with_start_gate(gate.clone());
+        let mut handle = runner.spawn("c09-sched").map_err(|e| format!("spawn: {e:?}"))?;
+        let control = handle.control();
+        control.pause().map_err(|e| format!("pause: {e:?}"))?;
+
+        let rmode = |m: Mode| match m {
+            Mode::Cold => RestartMode::Cold,
+            Mode::Warm => RestartMode::Warm,
+        };
+        let next_during = |j: usize| j < script.len() && script[j].0 == When::During;
+        // no request pending and the signal's lock free: nothing is being carried out
+        let wait_idle = || -> bool {
+            let deadline = Instant::now() + StdDuration::from_secs(20);
+            loop {
+                if signal.lock().map(|g| g.is_none()).unwrap_or(true) {
+                    return true;
+                }
+                if Instant::now() > deadline {
+                    return false;
+                }
+                std::thread::sleep(StdDuration::from_millis(1));
+            }
+        };
+        let mut res = String::from("ok");
+        let mut i = 0;
+        while i < script.len() && script[i].0 == When::Pre {
+            *signal.lock().unwrap() = Some(rmode(script[i].1));
+            i += 1;
+        }
+        if i > 0 && next_during(i) {
+            park.store(true, Ordering::SeqCst);
+        }
+        gate.open();
+        while i < script.len() {
+            let (when, m) = script[i];
+            match when {
+                When::Pre | When::Idle => {
+                    if !wait_idle() {
+                        res = "stuck-busy".into();
+                    }
+                    if next_during(i + 1) {
+                        park.store(true, Ordering::SeqCst);
+                    }
+                    *signal.lock().unwrap() = Some(rmode(m));
+                }
+                When::During => {
+                    // the resource thread is inside the retain load of the previous request
+                    let parked = entered_rx.recv_timeout(StdDuration::from_secs(8)).is_ok();
+                    if !parked {
+                        res = "no-restart-in-progress".into();
+                    }
+                    if next_during(i + 1) {
+                        park.store(true, Ordering::SeqCst);
+                    }
+                    // the control endpoint's `*signal.lock() = Some(mode)`, issued now: if the lock is
+                    // held (a restart is running) the write waits for it
+                    match signal.try_lock() {
+                        Ok(mut g) => {
+                            *g = Some(rmode(m));
+                            drop(g);
+                            let _ = go_tx.send(());
+                        }
+                        Err(_) => {
+                            let _ = go_tx.send(());
+                            *signal.lock().unwrap() = Some(rmode(m));
+                        }
+                    }
+                }
+            }
+            i += 1;
+        }
+        if !wait_idle() {
+            res = "stuck-busy".into();
+        }
+        // a parked load that nobody is waiting for any more must not hang the thread
+        park.store(false, Ordering::SeqCst);
+        let _ = go_tx.send(());
+        let (tx, rx) = channel();
+        let _ = control.send_command(ResourceCommand::Snapshot { respond_to: tx });
+        let snap = rx.recv_timeout(StdDuration::from_secs(20));
+        let pending = match *signal.lock().unwrap() {
+            None => "-",
+            Some(RestartMode::Cold) => "cold",
+            Some(RestartMode::Warm) => "warm",
+        };
+        let n_loads = loads.load(Ordering::SeqCst);
+        if let Some(e) = control.last_error() {
+            res = format!("e:{}", err_class(&e));
+        }
+        handle.stop();
+        let _ = handle.join();
+        let mut d = Dump { res, sched: Some((pending.to_string(), n_loads)), ..Default::default() };
+        match snap {
+            Ok(s) => self.fill_vars(&s.storage, &prog_names, &mut d),
+            Err(_) => {
+                if d.res == "ok" {
+                    d.res = "no-reply".into();
+                }
+            }
+        }
+        Ok(d)
+    }
+
     /// Run one primitive operation on slot `k` of the real runtime.
     pub fn apply(&mut self, k: usize, op: &Op) -> Result<Dump, String> {
+        if let Op::Sched(script) = op {
+            return self.run_sched(k, script);
+        }
         if let Some(f) = &self.fields[k] {
             let mut f = f.lock().unwrap();
             f.seen_in = None;
@@ -492,6 +678,7 @@ impl<'a> Exec<'a> {
                 }
                 Ok(())
             }
+            Op::Sched(_) => unreachable!(),
             Op::EnvW(w) => {
                 match &self.medium {
                     Medium::File { dir, .. } => {
